@@ -7,7 +7,9 @@
         cin / hin = scripts of the long-term ("cold", write stores) and of the hot tier: per shard
         the circuit state of its k-th visit and per replica the outcome of its n-th call
         (ok / error / accepted-but-late / timeout); cord / hord = oracle for the random shard
-        order, one list per sendBulkToStores invocation; s = final write-status state,
+        order, one list per sendBulkToStores invocation; cancel = Some k: the caller's request
+        context becomes done (deadline / cancel) when the k-th shard visit ends (0: on entry),
+        after which every replica call returns the context error; None: never; s = final write-status state,
         log = shard visits with their replica calls, ok = (result is nil).
      HasOk pay t sd r log   a call to replica r of shard sd of tier t carrying payload pay
                             returned success, and is in the log
@@ -26,11 +28,12 @@ From C09 Require Import Model CaseDefs Proofs ProofsLive ProofsSpec.
 (* If the proxy reports the bulk as stored then the hot tier has a shard all of whose replicas
    returned success for a call carrying exactly this payload, and so has the long-term tier when
    one is configured.  For every topology (any number of shards and replicas, even ragged), every
-   script of call outcomes and circuit states, EVERY shard order oracle, every tries >= 1. *)
+   script of call outcomes and circuit states, EVERY shard order oracle, every tries >= 1, and
+   every point at which the caller's request context may expire (cancel). *)
 Theorem C09_ack_sound :
-  forall tries pay cin hin cord hord s log,
+  forall tries pay cin hin cord hord cancel s log,
     1 <= tries ->
-    store_documents tries pay cin hin cord hord = (s, log, true) ->
+    store_documents tries pay cin hin cord hord cancel = (s, log, true) ->
     AckT pay Cold cin log /\ AckT pay Hot hin log.
 Proof. exact ack_sound. Qed.
 Print Assumptions C09_ack_sound.
@@ -39,8 +42,8 @@ Print Assumptions C09_ack_sound.
    to that very replica with this payload is in the log — never on the basis of a failed, a
    skipped or a short-circuited call. *)
 Theorem C09_written_only_on_ok :
-  forall tries pay cin hin cord hord s log ok,
-    store_documents tries pay cin hin cord hord = (s, log, ok) ->
+  forall tries pay cin hin cord hord cancel s log ok,
+    store_documents tries pay cin hin cord hord cancel = (s, log, ok) ->
     forall t sd rp sh r,
       nth_error (match t with Cold => cold s | Hot => hot s end) sd = Some sh ->
       nth_error (s_reps sh) r = Some rp -> r_written rp = true ->
@@ -51,9 +54,9 @@ Print Assumptions C09_written_only_on_ok.
 (* If after the last attempt some configured tier has no fully written shard, the result is an
    error. *)
 Theorem C09_fail_reported :
-  forall tries pay cin hin cord hord s log ok,
+  forall tries pay cin hin cord hord cancel s log ok,
     1 <= tries ->
-    store_documents tries pay cin hin cord hord = (s, log, ok) ->
+    store_documents tries pay cin hin cord hord cancel = (s, log, ok) ->
     (~ FullT (cold s) \/ ~ FullT (hot s)) -> ok = false.
 Proof. exact fail_reported. Qed.
 Print Assumptions C09_fail_reported.
@@ -61,8 +64,8 @@ Print Assumptions C09_fail_reported.
 (* Observable form of "never counted as written on the basis of a failed or skipped call": a
    replica is left out of a shard visit only after an earlier successful call to it. *)
 Theorem C09_skip_only_after_ok :
-  forall tries pay cin hin cord hord s log ok,
-    store_documents tries pay cin hin cord hord = (s, log, ok) ->
+  forall tries pay cin hin cord hord cancel s log ok,
+    store_documents tries pay cin hin cord hord cancel = (s, log, ok) ->
     SkipsOk (nr_sh (shc_of cin) (shc_of hin)) pay [] log.
 Proof. exact skips_sound. Qed.
 Print Assumptions C09_skip_only_after_ok.
@@ -70,12 +73,12 @@ Print Assumptions C09_skip_only_after_ok.
 (* The bounded retries are really used (so "always fail" is excluded): if the cheapest shard of
    the long-term tier and the cheapest shard of the hot tier can together fail fewer than `tries`
    visits, the bulk is acknowledged — whatever the shard orders, as long as each covers all
-   shards.  (Example C09_live_bound_tight: the bound cannot be improved.) *)
+   shards, and provided the caller's context does not expire (cancel = None).  (Example C09_live_bound_tight: the bound cannot be improved.) *)
 Theorem C09_succeeds_when_possible :
   forall tries pay cin hin cord hord s log ok,
     Forall (Covers (length cin)) cord -> Forall (Covers (length hin)) hord ->
     tier_bud (map mk_shard cin) + tier_bud (map mk_shard hin) < tries ->
-    store_documents tries pay cin hin cord hord = (s, log, ok) -> ok = true.
+    store_documents tries pay cin hin cord hord None = (s, log, ok) -> ok = true.
 Proof. exact succeeds_when_possible. Qed.
 Print Assumptions C09_succeeds_when_possible.
 
@@ -87,7 +90,7 @@ Theorem C09_succeeds_on_healthy_shard :
     Forall (Covers (length cin)) cord -> Forall (Covers (length hin)) hord ->
     (cin = [] \/ exists x, In x cin /\ healthy x = true) ->
     (hin = [] \/ exists x, In x hin /\ healthy x = true) ->
-    store_documents tries pay cin hin cord hord = (s, log, ok) -> ok = true.
+    store_documents tries pay cin hin cord hord None = (s, log, ok) -> ok = true.
 Proof. exact succeeds_on_healthy_shard. Qed.
 Print Assumptions C09_succeeds_on_healthy_shard.
 
@@ -95,12 +98,12 @@ Print Assumptions C09_succeeds_on_healthy_shard.
    IMPLEMENTATION's result and log (CaseDefs.spec_ok = acknowledgement + skips + liveness) holds
    on the model's own output for every input with legal (permutation) shard orders. *)
 Theorem C09_model_satisfies_spec :
-  forall tries pay cin hin cord hord,
+  forall tries pay cin hin cord hord cancel,
     1 <= tries ->
     forallb (legal_order (length cin)) cord = true ->
     forallb (legal_order (length hin)) hord = true ->
-    let '(_, log, ok) := store_documents tries pay cin hin cord hord in
-    spec_ok tries pay cin hin ok log = true.
+    let '(_, log, ok) := store_documents tries pay cin hin cord hord cancel in
+    spec_ok tries pay cin hin cancel ok log = true.
 Proof. exact model_spec_ok. Qed.
 Print Assumptions C09_model_satisfies_spec.
 
@@ -118,7 +121,7 @@ Print Assumptions C09_spec_ack_meaning.
 Definition ex_cin : list shard_in := [([], [[OOk]; [OErr; OOk]])].
 Definition ex_hin : list shard_in := [([], [[OTimeout; OSlowOk]]); ([true], [[OOk]])].
 Example C09_nonvacuous_ack :
-  exists s, store_documents 3 7%N ex_cin ex_hin [[0]; [0]] [[1; 0]; [0; 1]] =
+  exists s, store_documents 3 7%N ex_cin ex_hin [[0]; [0]] [[1; 0]; [0; 1]] None =
     (s, [mkVisit Cold 0 false [mkCall 0 OOk 7; mkCall 1 OErr 7];
          mkVisit Cold 0 false [mkCall 1 OOk 7];
          mkVisit Hot 1 true [];
@@ -129,7 +132,7 @@ Proof. eexists. vm_compute. reflexivity. Qed.
 (* a bulk that must fail: the only hot replica never accepts within 3 tries; hypothesis of
    fail_reported (no fully written hot shard) is met and the result is an error *)
 Example C09_nonvacuous_fail :
-  exists s log, store_documents 3 0%N [] [([], [[OErr; OErr; OTimeout]])] [] [] = (s, log, false)
+  exists s log, store_documents 3 0%N [] [([], [[OErr; OErr; OTimeout]])] [] [] None = (s, log, false)
                 /\ ~ FullT (hot s).
 Proof.
   eexists. eexists. split. vm_compute. reflexivity.
@@ -140,15 +143,25 @@ Qed.
 (* budget 1 (cold) + 1 (hot) = 2 < 3: acknowledged exactly in the third attempt *)
 Example C09_nonvacuous_live :
   tier_bud (map mk_shard [([true], [[OOk]])]) + tier_bud (map mk_shard [([], [[OErr]])]) = 2 /\
-  exists s log, store_documents 3 0%N [([true], [[OOk]])] [([], [[OErr]])] [] [] = (s, log, true)
+  exists s log, store_documents 3 0%N [([true], [[OOk]])] [([], [[OErr]])] [] [] None = (s, log, true)
                 /\ length log = 4.
 Proof. split. reflexivity. eexists. eexists. split. vm_compute. reflexivity. reflexivity. Qed.
 
 (* the bound of C09_succeeds_when_possible is tight: budget 3 with 3 tries fails *)
 Example C09_live_bound_tight :
   tier_bud (map mk_shard []) + tier_bud (map mk_shard [([], [[OErr; OErr; OErr; OOk]])]) = 3 /\
-  exists s log, store_documents 3 0%N [] [([], [[OErr; OErr; OErr; OOk]])] [] [] = (s, log, false).
+  exists s log, store_documents 3 0%N [] [([], [[OErr; OErr; OErr; OOk]])] [] [] None = (s, log, false).
 Proof. split. reflexivity. eexists. eexists. vm_compute. reflexivity. Qed.
+
+(* the request context expires at the end of the first visit (the hot replica hung until the
+   caller's deadline): the two later attempts only get context errors, the result is an error
+   although the script says the replica would have accepted *)
+Example C09_nonvacuous_ctx :
+  exists s, store_documents 3 0%N [] [([], [[OTimeout; OOk; OOk]])] [] [] (Some 1) =
+    (s, [mkVisit Hot 0 false [mkCall 0 OTimeout 0];
+         mkVisit Hot 0 false [mkCall 0 OCtx 0];
+         mkVisit Hot 0 false [mkCall 0 OCtx 0]], false).
+Proof. eexists. vm_compute. reflexivity. Qed.
 
 (* legal orders exist and the spec checker accepts the model on a concrete run *)
 Example C09_nonvacuous_spec :
